@@ -111,6 +111,9 @@ struct GenCfg {
   bool inline_insn = true;   // use `inline` as well as `call`
   bool multi_module = false; // spread functions over modules with import/export
   int min_funcs = 1;
+  bool single_item_sections = false;
+  bool passive_data = false;   // data sections (named head + anonymous members) that no code refers to
+  bool blk_args = true;        // block (by value aggregate) arguments
   bool layered_modules = false;  // calls go to the same or an earlier module only
   bool passive_items = false;  // lref tables of function labels and a never-called function with a hard-register variable
   int forward_calls_chance = 0;  // of 256: the callee is a function generated after the caller (no recursion through it)
@@ -938,6 +941,7 @@ struct ProgGen {
         for (int k = 0; k < na; k++) {
           static const int at[] = {MIR_T_I64, MIR_T_D, MIR_T_I32, MIR_T_U8, MIR_T_F, MIR_T_I16, MIR_T_LD, MIR_T_U32, MIR_T_I8, MIR_T_U16, MIR_T_U64, MIR_T_BLK};
           int t = wide && cs.chance (200) ? wide_t : at[cs.range (0, cfg.narrow_sigs ? 11 : 1)];
+          if (t == MIR_T_BLK && !cfg.blk_args) t = MIR_T_I64;
           if (!cfg.fp && !MIR_int_type_p ((MIR_type_t) t) && t != MIR_T_BLK) t = MIR_T_I64;
           if (t == MIR_T_LD && !cfg.ld) t = MIR_T_D;
           Arg a = {t, "a" + std::to_string (k), 0};
@@ -965,6 +969,42 @@ struct ProgGen {
       nf++;
     }
     for (int i = 0; i < nf; i++) gen_func (i);
+    if (cfg.passive_data) {  // data sections nothing refers to: a named head and anonymous followers
+      Module &mod = prog.mods.back ();
+      int nsec = (int) cs.range (0, 3);
+      for (int sct = 0; sct < nsec; sct++) {
+        int members = (int) cs.range (1, 4);
+        if (cfg.single_item_sections) members = 1;
+        for (int k = 0; k < members; k++) {
+          DataItem d;
+          if (k == 0) d.name = "ds" + std::to_string (sct);
+          switch (cs.weighted ({6, 2, 1})) {
+          case 1:
+            d.k = DataItem::BSS;
+            d.len = cs.range (1, 24);
+            break;
+          case 2:
+            d.k = DataItem::REF;
+            d.ref = "entry";
+            d.disp = (int64_t) cs.range (0, 8);
+            break;
+          default: {
+            static const int ts[] = {MIR_T_I64, MIR_T_I8, MIR_T_U8, MIR_T_I16, MIR_T_U16, MIR_T_I32, MIR_T_U32, MIR_T_U64, MIR_T_F, MIR_T_D};
+            d.k = DataItem::DATA;
+            d.el_type = ts[cs.range (0, 9)];
+            size_t es = (size_t) type_size (d.el_type), nel = cs.range (1, 4);
+            d.bytes.resize (es * nel);
+            for (size_t q = 0; q < nel; q++) {
+              if (d.el_type == MIR_T_F) { float v = (float) ((int) cs.range (0, 200) - 100) / 4; memcpy (&d.bytes[q * es], &v, 4); }
+              else if (d.el_type == MIR_T_D) { double v = (double) ((int) cs.range (0, 200) - 100) / 8; memcpy (&d.bytes[q * es], &v, 8); }
+              else for (size_t b = 0; b < es; b++) d.bytes[q * es + b] = cs.byte ();
+            }
+          }
+          }
+          mod.add_data (d);
+        }
+      }
+    }
     // declarations: protos and imports first, exports for everything
     for (int m = 0; m < nmods; m++) {
       Module &mod = prog.mods[m];
